@@ -289,15 +289,25 @@ func H_C06_readd_vector() {
 	u := vMakeIndexC(kind, L2Squared, 1, 2, false) // ivf kinds: two cells (centroids 0 and 4): the update moves the vector to the other cell
 	idx := u.idx
 	add := func(id uint32, x float32) { vAssert(idx.Add(*NewVectorNodeWithID(id, []float32{x})) == nil, "add-ok") }
+	// resident population: the updated document alone / with one other / among twelve (pending removals
+	// are then a small fraction of the index)
+	resident := []int{1, 2, 12}[vChoose("resident", 3)]
+	vTag(vName("resident", resident))
 	add(5, 1)
-	add(3, 10)
+	for i := 1; i < resident; i++ {
+		if i == 1 {
+			add(3, 10)
+		} else {
+			add(uint32(100+i), float32(40+3*i))
+		}
+	}
 	vFlushAt(0, idx.Flush)
 	vAssert(idx.Remove(*NewVectorNodeWithID(5, nil)) == nil, "remove-ok")
 	vFlushAt(1, idx.Flush)
 	add(5, 20) // the update: new content for id 5
 	vFlushAt(2, idx.Flush)
 	for pass := 0; pass < 2; pass++ {
-		res, err := idx.NewSearch().WithQuery([]float32{19}).WithK(5).WithNProbes(0).Execute()
+		res, err := idx.NewSearch().WithQuery([]float32{19}).WithK(0).WithNProbes(0).Execute()
 		vAssert(err == nil, "search-ok")
 		n5 := 0
 		for _, r := range res {
@@ -307,11 +317,71 @@ func H_C06_readd_vector() {
 			}
 		}
 		vAssert(n5 == 1, "re-added-id-findable-exactly-once")
-		vAssert(len(res) == 2, "both-documents-found")
+		if kind != vKHNSW || resident <= 2 {
+			vAssert(len(res) == resident, "all-documents-found")
+		}
 		if pass == 0 {
 			vAssert(idx.Flush() == nil, "flush-ok")
 		}
 	}
+	vCover("ran")
+}
+
+func init() { vHarnesses["H_C06_remove_many"] = H_C06_remove_many }
+
+// six documents with every modality, ANY subset of them removed (64 masks), one Flush for all pending
+// removals: before and after the flush every removed document is unfindable in every modality (through the
+// hybrid index and in each sub-index) and every other document is still found
+func H_C06_remove_many() {
+	flat, _ := NewFlatIndex(1, L2Squared)
+	txt := NewBM25SearchIndex()
+	meta := NewRoaringMetadataIndex()
+	h := NewHybridSearchIndex(flat, txt, meta)
+	ids := []uint32{5, 3, 9, 2, 7, 4}
+	for i, id := range ids {
+		vAssert(h.AddWithID(id, []float32{float32(i)}, "fox "+vName("w", i), map[string]interface{}{"c": "x", "n": i}) == nil, "add-ok")
+	}
+	mask := vChoose("removed_mask", 64)
+	for i, id := range ids {
+		if mask&(1<<uint(i)) != 0 {
+			vAssert(h.Remove(id) == nil, "remove-ok")
+		}
+	}
+	check := func(label string) {
+		rv, e1 := h.NewSearch().WithVector([]float32{2}).WithK(100).Execute()
+		rt, e2 := h.NewSearch().WithText("fox").WithK(100).Execute()
+		rm, e3 := h.NewSearch().WithMetadata(Eq("c", "x")).WithK(100).Execute()
+		vAssert(e1 == nil && e2 == nil && e3 == nil, label+"-search-ok")
+		sv, _ := flat.NewSearch().WithQuery([]float32{2}).WithK(0).Execute()
+		st, _ := txt.NewSearch().WithQuery("fox").WithK(0).Execute()
+		sm, _ := meta.NewSearch().WithFilters(Gte("n", 0)).Execute()
+		var tv, tt, tm []uint32
+		for _, r := range sv {
+			tv = append(tv, r.GetId())
+		}
+		for _, r := range st {
+			tt = append(tt, r.Id)
+		}
+		for _, r := range sm {
+			tm = append(tm, r.GetId())
+		}
+		for i, id := range ids {
+			gone := mask&(1<<uint(i)) != 0
+			for li, got := range [][]uint32{vIDsOfHybrid(rv), vIDsOfHybrid(rt), vIDsOfHybrid(rm), tv, tt, tm} {
+				via := []string{"hybrid-vector", "hybrid-text", "hybrid-metadata", "vector-index", "text-index", "metadata-index"}[li]
+				if gone {
+					vAssert(!vContains(got, id), label+"-removed-document-unfindable-via-"+via)
+				} else {
+					vAssert(vContains(got, id), label+"-other-documents-still-found-via-"+via)
+				}
+			}
+		}
+	}
+	check("before-flush")
+	vAssert(h.Flush() == nil, "flush-ok")
+	check("after-flush")
+	vAssert(flat.Flush() == nil && txt.Flush() == nil && meta.Flush() == nil, "flush-ok")
+	check("after-sub-index-flushes")
 	vCover("ran")
 }
 
